@@ -5,7 +5,8 @@ package main
 // Direct differential: a real *sftp.Client talks over in-memory pipes to a real os-backed sftp.Server that
 // serves tree A; the same operation is applied with package os / path/filepath to the twin tree B. After every
 // step the outcome category, the returned values and a canonical snapshot of both trees are compared.
-// (There is no Lean driver op for the adapter yet, so there is no model comparison here.)
+// Model comparison: the composites Remove / MkdirAll / RemoveAll are compared with their Lean model and with the
+// reference semantics of package os in the family "composite-model" (c05_composite.go, driver ops c05c.*).
 
 import (
 	"crypto/sha256"
@@ -903,6 +904,11 @@ func checkC05(c *lib.Ctx) {
 	r.Note("documented differences not reported (table c05Documented): %s", strings.Join(ids, ", "))
 
 	if c.Replay != "" {
+		var fam c05cInput
+		if err := lib.ReadReplay(c.Replay, &fam); err == nil && fam.Family == c05cFamily {
+			c05cReplay(c, fam)
+			return
+		}
 		var in c05Input
 		if err := lib.ReadReplay(c.Replay, &in); err != nil {
 			r.Fail(lib.Failure{Kind: "tie", Key: "replay", What: err.Error()})
@@ -1016,6 +1022,10 @@ func checkC05(c *lib.Ctx) {
 	if len(missing) > 0 {
 		r.Note("tree shapes never met in this run: %s", strings.Join(missing, ", "))
 	}
+
+	// family composite-model: the composites against their Lean model and the os reference semantics (c05_composite.go)
+	r.Rule += c05cRule
+	checkC05Composite(c)
 }
 
 func c05OpText(op c05Op) string {
